@@ -46,7 +46,9 @@ class FIBDemux(Device):
         self.outs = outs
         self.default_out = default_out
         self.packets_recevied = 0
-        if ends:
+        if ends is not None:
+            # keep the caller's map, also when it is still empty: end devices
+            # may be registered in it later
             self.ends = ends
         else:
             self.ends = dict()
